@@ -59,6 +59,23 @@ theorem {thm} (x : Arr{w} {ring}) (rc : Nat → Nat → {ring}) :
 """
 
 
+def exec_thm(pkg, w, rf, rp, kind):
+    name = f"Permutation.Permutation_t{w}_rf{rf}_rp{rp}_n{w}"
+    rc = "(fun i j => ((rcOf 0 keys i j : ℕ) : ZMod q))"
+    rcarg = " " + rc if rf + rp > 0 else ""
+    xs = " ".join(f"x{i}" for i in range(w))
+    xl = ", ".join(f"x{i}" for i in range(w))
+    xc = ", ".join(f"(x{i} : ZMod q)" for i in range(w))
+    thm = f"C14perm_{pkg}_t{w}_rf{rf}_rp{rp}_exec"
+    return thm, f"""/-- … hence the EXECUTABLE model (arithmetic mod q on `Nat`, the oracle of tie K) on any accepted key table, read in `ZMod q` -/
+theorem {thm} (q : ℕ) (keys : List (List ℕ)) (h : keysShapeOk {w} {rf} {rp} keys q = true) ({xs} : ℕ) :
+    ({name} (⟨{xc}⟩ : Arr{w} (ZMod q)){rcarg}).toList =
+      (permute (natOps q) {{ t := {w}, sb := .{kind}, m4k := .paper, diag := [], rf := {rf}, rp := {rp}, keys := keys }} [{xl}]).map Nat.cast := by
+  rw [C14perm_{pkg}_t{w}_rf{rf}_rp{rp} _ {rc}, C14perm_exec q _ h]
+  simp [Arr{w}.toList]
+"""
+
+
 def width_lemmas(w, inst, ring, small):
     I = inst.format(rf="rf", rp="rp")
     sb = nest([f"Permutation.sBox_t{w}_{j}_n{w}" for j in range(w)], f"(Permutation.addRoundKeyInPlace_t{w}_n{w} x k)")
@@ -115,7 +132,7 @@ def pkg_file(pkg, kind, d, m4, diags, insts, dflt, fast):
     src = f"/repo/field/{pkg}/poseidon2" if small else f"/repo/ecc/{pkg.replace('_', '-')}/fr/poseidon2"
     names = []
     t = HEAD + f"""import GnarkVerif.Props.C14_gen_p2_{pkg}
-import GnarkVerif.Proofs.C14Perm
+import GnarkVerif.Props.C14_perm_model
 /-
 C14 (tie T) — Poseidon2 over {pkg}: the COMPOSITION of the layers, `(*Permutation).Permutation(input)` of {src}/poseidon2.go.
 `Permutation.Permutation_t<w>_rf<rf>_rp<rp>_n<w>` (Gen/Hash/P2_{pkg}.lean) is REGENERATED by tools/goslp (slpperm.go) on every run: the width
@@ -143,6 +160,10 @@ theorem Arr1.toList_mk (a : {ring}) : (Arr1.mk a).toList = [a] := rfl
                 n, th = perm_thm(pkg, w, rf, rp, inst, ring)
                 t += th + "\n"
                 names.append(n)
+                if not small:
+                    n, th = exec_thm(pkg, w, rf, rp, kind)
+                    t += th + "\n"
+                    names.append(n)
     tl = ", ".join(f"({w}, {rf}, {rp})" for w, rf, rp in insts)
     fl = ", ".join('("%s", "%s")' % kv for kv in sorted(fast.items()))
     mname = MODELNAME.get(pkg, pkg)
@@ -170,9 +191,15 @@ example : permute (natOps 7) {{ t := 2, sb := .{kind}, m4k := .paper, diag := []
     return t, [f"{ns}.{n}" for n in names]
 
 
-ROOTDOC = """/- C14 (tie T): `Permutation` (the composition of the Poseidon2 layers) as regenerated by tools/goslp (slpperm.go) on every run equals
-   `permute` of Model/Poseidon2.lean. This module imports the per-package files (written by bin/mkc14perm.py) and states the
-   model-side facts that do not depend on a package. -/
+MODELDOC = """/- written by bin/mkc14perm.py (constant text). DO NOT EDIT: edit the script and re-run it. -/
+import GnarkVerif.Props.C14
+import GnarkVerif.Proofs.C14Perm
+import GnarkVerif.Proofs.Poseidon2Hom
+/-
+C14 (tie T, composition of the Poseidon2 layers) — the package-independent, MODEL-side facts: when the executable model returns an
+error, the shape of the key tables it accepts, and the bridge from the executable `Nat`-mod-q model to the form
+`permute (ringOps (ZMod q)) (instOf …)` in which the generated `Permutation` defs are stated (Props/C14_perm_<pkg>.lean).
+-/
 namespace GV.Poseidon2
 open GV.C14perm
 
@@ -209,7 +236,48 @@ theorem C14perm_keys_shape (t rf rp q : Nat) (keys : List (List Nat)) (h : keysS
           congr 1; omega
         rw [hc _ this, if_neg (by omega)]
 
+theorem list_eq_range_getD {α : Type} (z : α) (l : List α) : l = (List.range l.length).map (fun j => l.getD j z) := by
+  apply List.ext_getElem
+  · simp
+  · intro i h1 h2
+    simp [List.getD_eq_getElem?_getD, List.getElem?_eq_getElem h1]
+
+/-- a key table accepted by the model IS `keysOf` of its accessor -/
+theorem C14perm_keys_eq (t rf rp q : Nat) (keys : List (List Nat)) (h : keysShapeOk t rf rp keys q = true) :
+    keys = keysOf t rf rp (rcOf 0 keys) := by
+  have hs := C14perm_keys_shape t rf rp q keys h
+  have hl : keys.length = rf + rp := by
+    simpa [keysOf] using congrArg List.length hs
+  apply List.ext_getElem
+  · simp [keysOf, hl]
+  · intro i h1 h2
+    have hi : (keys[i]).length = if rf / 2 ≤ i ∧ i < rf / 2 + rp then 1 else t := by
+      have := congrArg (fun l => l[i]?) hs
+      simp only [List.getElem?_map, List.getElem?_eq_getElem h1, List.getElem?_eq_getElem h2, Option.map_some, Option.some.injEq] at this
+      rw [this]; simp [keysOf]
+    simp only [keysOf, List.getElem_map, List.getElem_range]
+    rw [← hi]
+    have hr : rcOf 0 keys i = fun j => (keys[i]).getD j 0 := by
+      funext j; simp [rcOf, List.getD_eq_getElem?_getD, List.getElem?_eq_getElem h1]
+    rw [hr]
+    exact list_eq_range_getD 0 _
+
+/-- **the executable model on an accepted key table is the algebraic permutation on `keysOf`** — the right-hand side is the form
+in which the generated `Permutation` defs are stated (Props/C14_perm_<pkg>) -/
+theorem C14perm_exec (q : ℕ) (I : Inst ℕ) (h : keysShapeOk I.t I.rf I.rp I.keys q = true) (x : List ℕ) :
+    (permute (natOps q) I x).map (Nat.cast : ℕ → ZMod q) =
+      permute (ringOps (ZMod q)) (instOf I.t I.sb I.m4k (I.diag.map Nat.cast) I.rf I.rp (fun i j => ((rcOf 0 I.keys i j : ℕ) : ZMod q)))
+        (x.map Nat.cast) := by
+  rw [C14_p2_permute_field]
+  congr 1
+  simp only [Inst.map, instOf, Inst.mk.injEq, true_and]
+  conv_lhs => rw [C14perm_keys_eq I.t I.rf I.rp q I.keys h]
+  simp [keysOf, List.map_map, Function.comp_def]
 end GV.Poseidon2
+"""
+
+ROOTDOC = """/- C14 (tie T): `Permutation` (the composition of the Poseidon2 layers) as regenerated by tools/goslp (slpperm.go) on every run equals
+   `permute` of Model/Poseidon2.lean. This module only imports the per-package files and Props/C14_perm_model.lean; written by bin/mkc14perm.py. -/
 """
 
 
@@ -224,8 +292,9 @@ def main():
         open(os.path.join(PROPS, f"C14_perm_{pkg}.lean"), "w").write(t)
         imports.append(f"C14_perm_{pkg}")
         audits += th
-    audits += ["GV.Poseidon2.C14perm_model_error_iff", "GV.Poseidon2.C14perm_keys_shape"]
-    root = "".join(f"import GnarkVerif.Props.{m}\n" for m in imports) + ROOTDOC
+    audits += ["GV.Poseidon2." + n for n in ("C14perm_model_error_iff", "C14perm_keys_shape", "C14perm_keys_eq", "C14perm_exec")]
+    open(os.path.join(PROPS, "C14_perm_model.lean"), "w").write(MODELDOC)
+    root = "import GnarkVerif.Props.C14_perm_model\n" + "".join(f"import GnarkVerif.Props.{m}\n" for m in imports) + ROOTDOC
     open(os.path.join(PROPS, "C14_perm.lean"), "w").write(root)
     open(os.path.join(AUDIT, "C14_perm.lean"), "w").write(
         "import GnarkVerif.Props.C14_perm\n/- axiom audit of the C14 (tie T, composition of the Poseidon2 layers) theorems; written by bin/mkc14perm.py -/\n" +
